@@ -62,10 +62,25 @@ def query(tu, name, extra_flags=()):
     cc = "clang" if tu.endswith(".c") else "clang++"
     cmd = [cc] + tu_flags(tu) + list(extra_flags) + ["-fsyntax-only", "-Wno-everything", "-Xclang", "-ast-dump=json",
                                                      "-Xclang", "-ast-dump-filter=" + name, os.path.join(REPO, tu)]
-    p = subprocess.run(cmd, capture_output=True, text=True)
-    if p.returncode != 0:
-        raise ClangError("clang failed on %s: %s" % (tu, p.stderr[-2000:]))
-    s = p.stdout
+    # development aid, OFF by default: VF_AST_CACHE=<dir> reuses clang's output for the same command line while the
+    # TU file itself is unchanged (header edits are NOT seen: never set it for a real check)
+    cdir, cfile = os.environ.get("VF_AST_CACHE"), None
+    if cdir:
+        st = os.stat(os.path.join(REPO, tu))
+        key = hashlib.sha1(("\0".join(cmd) + "\0%d\0%d" % (st.st_mtime_ns, st.st_size)).encode()).hexdigest()
+        cfile = os.path.join(cdir, key + ".json")
+    if cfile and os.path.exists(cfile):
+        s = open(cfile).read()
+    else:
+        p = subprocess.run(cmd, capture_output=True, text=True)
+        if p.returncode != 0:
+            raise ClangError("clang failed on %s: %s" % (tu, p.stderr[-2000:]))
+        s = p.stdout
+        if cfile:
+            os.makedirs(cdir, exist_ok=True)
+            with open(cfile + ".tmp%d" % os.getpid(), "w") as f:
+                f.write(s)
+            os.replace(cfile + ".tmp%d" % os.getpid(), cfile)
     dec = json.JSONDecoder()
     i, objs = 0, []
     n = len(s)
